@@ -69,16 +69,15 @@ inductive Op
   | relAny (t : Task) (choice : Task)   -- release issued by a task that does NOT own it (the code does not check)
   deriving DecidableEq, Repr
 
+/-- the believers left after `who` gave the lock up -/
+def remaining (s : Sys) : Option Task → List Task
+  | some t => s.believers.erase t
+  | none => s.believers
+
 def applyRelease (s : Sys) (who : Option Task) (choice : Task) : Option Sys :=
   match release s.lock choice with
   | .error _ => none
-  | .ok (l, woken) =>
-    let b := match who with
-      | some t => s.believers.erase t
-      | none => s.believers
-    some { lock := l, believers := match woken with
-      | some w => b ++ [w]
-      | none => b }
+  | .ok (l, woken) => some { lock := l, believers := remaining s who ++ woken.toList }
 
 /-- `none` = the operation cannot be issued: the task is parked in `_waiting` (it is not running), or it breaks the
     stated discipline of its constructor -/
